@@ -691,13 +691,17 @@ def device_program(rng, skeleton=None, skeleton_ty=None):
 # ---------------------------------------------------------------------------------------------------------
 # running the implementation
 # ---------------------------------------------------------------------------------------------------------
-def transpile(sources, seed, texts=False, script=None, adv=None):
+OTHER_PYTHONS = ["/usr/bin/python3.11", "/root/miniconda/bin/python", "/root/.pyenv/versions/3.10.13/bin/python"]
+
+
+def transpile(sources, seed, texts=False, script=None, adv=None, python=None):
     payload = {"mode": "session" if script is not None else "transpile", "sources": sources, "texts": texts}
     if script is not None:
         payload["script"] = script
     if adv:
         payload["adv"] = adv
-    r = C.run_impl("c10_impl.py", payload, env_extra={"PYTHONHASHSEED": str(seed)}, timeout=1200)
+    kw = {"python": python} if python else {}
+    r = C.run_impl("c10_impl.py", payload, env_extra={"PYTHONHASHSEED": str(seed)}, timeout=1200, **kw)
     if str(r.get("hashseed")) != str(seed):
         raise RuntimeError(f"runner reports hash seed {r.get('hashseed')} instead of {seed}")
     if (r.get("adv") or None) != (adv or None):
@@ -709,10 +713,14 @@ def run_variant(sources, v, seed0, texts=False):
     """v = ("seed", n): PYTHONHASHSEED=n;  ("adv", key): dictated set order `key` under PYTHONHASHSEED=seed0"""
     if v[0] == "seed":
         return transpile(sources, v[1], texts=texts)
+    if v[0] == "py":
+        return transpile(sources, v[2], texts=texts, python=v[1])
     return transpile(sources, seed0, texts=texts, adv=v[1])
 
 
 def vname(v):
+    if v[0] == "py":
+        return f"{v[1]} PYTHONHASHSEED={v[2]}"
     return f"PYTHONHASHSEED={v[1]}" if v[0] == "seed" else f"set-order={v[1]}"
 
 
@@ -793,7 +801,7 @@ def run(ctx: C.Ctx):
 
     # ------------------------------------------------------------------ skeleton programs
     skels = template_programs(rng)
-    n_rand = 260 if thorough else 70
+    n_rand = 500 if thorough else 70
     for k in range(n_rand):
         tight = k % 3 != 0
         g = SkelGen(rng, rng.randint(2, 8), tight=tight)
@@ -823,13 +831,13 @@ def run(ctx: C.Ctx):
             s["in_guard"] = s["origin"].startswith("random tight") and False
 
     # ------------------------------------------------------------------ ordinary and mixed programs
-    n_dev = 90 if thorough else 26
+    n_dev = 160 if thorough else 26
     devs = []
     for k in range(n_dev):
         src, feats = device_program(rng)
         devs.append({"src": src, "feats": feats, "origin": "device", "in_guard": True})
     guard_skels = [s for s in skels if s["in_guard"] and s["origin"].startswith("random")]
-    for k in range(min(len(guard_skels), 40 if thorough else 12)):
+    for k in range(min(len(guard_skels), 80 if thorough else 12)):
         sk = guard_skels[k]
         src, feats = device_program(rng, skeleton=sk["items"], skeleton_ty=sk["ty"])
         devs.append({"src": src, "feats": feats, "origin": "mixed", "in_guard": True})
@@ -866,7 +874,9 @@ def run(ctx: C.Ctx):
         ta = run_variant([p["src"]], a, seeds[0], texts=True)["results"][0]
         tb = run_variant([p["src"]], b, seeds[0], texts=True)["results"][0]
         diff = udiff(ta.get("cpp", ""), tb.get("cpp", ""), vname(a), vname(b))
-        if b[0] == "seed":
+        if b[0] == "py":
+            how = f"PYTHONHASHSEED={a[2]} vs {b[2]} with interpreter {b[1]} (PYTHONPATH=/repo/src): emit(parse(program))"
+        elif b[0] == "seed":
             how = (f"PYTHONHASHSEED={a[1]} vs {b[1]}: PYTHONPATH=/repo/src python -c 'import sys; from Reduino.transpile.parser import parse; "
                    "from Reduino.transpile.emitter import emit; print(emit(parse(open(sys.argv[1]).read())))' program.py")
         else:
@@ -906,6 +916,34 @@ def run(ctx: C.Ctx):
     dist["outside_guard_varying_with_seed"] = out_guard_varies
     dist["outside_guard_varying_with_seed_or_dictated_set_order"] = out_guard_varies_adv
     dist["dictated_set_orders"] = adv_keys
+
+    # ------------------------------------------------------------------ property oracle 1b: other CPython builds (thorough)
+    # each interpreter is compared with ITSELF under two hash seeds (another set implementation, "platforms' set
+    # ordering"); differences BETWEEN interpreter versions are only counted - the statement does not constrain them
+    import os as _os
+    other = [p_ for p_ in OTHER_PYTHONS if _os.path.exists(p_)] if thorough else []
+    dist["other_interpreters"] = {}
+    for py in other:
+        try:
+            ra = run_variant(sources, ("py", py, seeds[0]), seeds[0])
+            rb = run_variant(sources, ("py", py, seeds[1]), seeds[0])
+        except Exception as e:  # noqa - an interpreter that cannot import the package is not evidence of anything
+            dist["other_interpreters"][py] = {"unusable": str(e)[:200]}
+            continue
+        cross = 0
+        cross_guard = 0
+        for i, p in enumerate(progs):
+            if ra["results"][i]["sha"] != p["ref"]["sha"]:
+                cross += 1
+                cross_guard += 1 if p["in_guard"] else 0
+            if not p["in_guard"]:
+                continue
+            evaluations += 1
+            if ra["results"][i]["sha"] != rb["results"][i]["sha"]:
+                report("hashseed", p, ("py", py, seeds[0]), ("py", py, seeds[1]), ra["results"][i]["sha"], rb["results"][i]["sha"],
+                       "emitted C++ differs between two hash seeds (under another CPython build) for a program inside the guard")
+        dist["other_interpreters"][py] = {"version": ra.get("python"), "programs_differing_from_the_reference_interpreter": cross,
+                                           "of_which_inside_the_guard(not constrained by the statement, recorded only)": cross_guard}
 
     # ------------------------------------------------------------------ property oracle 2: one process, repeated and interleaved
     guard_idx = [i for i, p in enumerate(progs) if p["in_guard"] and p["ref"]["ok"]]
@@ -1011,7 +1049,7 @@ def run(ctx: C.Ctx):
     n_prom = 0
     if have_model:
         pc, wc = [], []
-        n_cases = 1500 if thorough else 400
+        n_cases = 4000 if thorough else 400
         for k in range(n_cases):
             nn = rng.randint(1, 7)
             pool = fresh_names(rng, nn + 2, set())
@@ -1081,7 +1119,7 @@ def run(ctx: C.Ctx):
     n_sorted = 0
     if have_model:
         lists = []
-        for k in range(600 if thorough else 200):
+        for k in range(1500 if thorough else 200):
             n = rng.randint(0, 8)
             alpha = rng.choice(["ab", "abAB_09", FIRST + "0123456789", "aàbéZzΩ_1"])
             names = {"".join(rng.choice(alpha) for _ in range(rng.randint(1, 5))) for _ in range(n)}
